@@ -237,7 +237,8 @@ def et_node(d, onto=None):
 # ---------------------------------------------------------------------------
 def base_ontology():
     return ONTO(
-        object_types=[OT('o'), OT('n', 'number:int:signed'), OT('d', 'datetime'), OT('e', 'enum:a:b'), OT('s', 'sequence')],
+        object_types=[OT('o'), OT('n', 'number:int:signed'), OT('d', 'datetime'), OT('e', 'enum:a:b'), OT('s', 'sequence'),
+                      OT('g', **{'regex-hard': '[a-z]+'})],
         concepts=[CONCEPT('c'), CONCEPT('c.x')],
         event_types=[
             ET('parent', [PROP('k', 'o', merge='match')]),
@@ -282,6 +283,10 @@ def edit_catalogue():
         E.append(('object-type', 'o.' + k, setter(ot('o'), k, v)))
     E.append(('object-type', 'o.regex-hard=x|y', setter(ot('o'), 'regex-hard', '[a-z]+|[0-9]+')))
     E.append(('object-type', 'o.regex-hard=zx|y', setter(ot('o'), 'regex-hard', 'z[a-z]+|[0-9]+')))
+    E.append(('object-type', 'g.regex-hard=x|y', setter(ot('g'), 'regex-hard', '[a-z]+|[0-9]+')))
+    E.append(('object-type', 'g.regex-hard=zx|y', setter(ot('g'), 'regex-hard', '[0-9][a-z]+|[A-Z]+')))
+    E.append(('object-type', 'g.regex-hard=other', setter(ot('g'), 'regex-hard', '[0-9]+')))
+    E.append(('object-type', 'g.regex-hard=none', setter(ot('g'), 'regex-hard', None)))
     E.append(('object-type', 'n.unit', lambda o: _ot(o, 'n').update({'unit-name': 'meter', 'unit-symbol': 'm'})))
     E.append(('object-type', 'e.enum+c', setter(ot('e'), 'data-type', 'enum:a:b:c')))
     E.append(('object-type', 'e.enum+c+d', setter(ot('e'), 'data-type', 'enum:a:b:c:d')))
@@ -344,3 +349,81 @@ def apply_edits(base, edits, bump=None):
             else:
                 _et(o)['version'] = bump
     return o
+
+
+# ---------------------------------------------------------------------------
+def _tag(el):
+    return el.tag.split('}')[1] if el.tag.startswith('{') else el.tag
+
+
+def from_xml(root):
+    """read an <ontology> element (as produced by Ontology.generate_xml) back into a definition dictionary"""
+    o = ONTO()
+    g = lambda el, k, d=None: el.get(k, d)
+    for sec in root:
+        t = _tag(sec)
+        for el in sec:
+            if t == 'object-types':
+                o['object-types'].append({
+                    'name': g(el, 'name'), 'display-name-singular': g(el, 'display-name-singular'), 'display-name-plural': g(el, 'display-name-plural'),
+                    'description': g(el, 'description'), 'data-type': g(el, 'data-type'), 'unit-name': g(el, 'unit-name'),
+                    'unit-symbol': g(el, 'unit-symbol'), 'prefix-radix': int(g(el, 'prefix-radix')) if g(el, 'prefix-radix') else None,
+                    'xref': g(el, 'xref'), 'compress': g(el, 'compress', 'false') == 'true', 'fuzzy-matching': g(el, 'fuzzy-matching'),
+                    'regex-hard': g(el, 'regex-hard'), 'regex-soft': g(el, 'regex-soft'), 'version': int(g(el, 'version'))})
+            elif t == 'concepts':
+                o['concepts'].append({'name': g(el, 'name'), 'display-name-singular': g(el, 'display-name-singular'),
+                                      'display-name-plural': g(el, 'display-name-plural'), 'description': g(el, 'description'),
+                                      'version': int(g(el, 'version'))})
+            elif t == 'sources':
+                o['sources'].append({'uri': g(el, 'uri'), 'description': g(el, 'description'), 'date-acquired': g(el, 'date-acquired'),
+                                     'version': int(g(el, 'version'))})
+            elif t == 'event-types':
+                et = ET(g(el, 'name'), [])
+                for k in ('display-name-singular', 'display-name-plural', 'description', 'summary', 'story', 'event-version', 'sequence',
+                          'timespan-start', 'timespan-end'):
+                    et[k] = g(el, k)
+                et['version'] = int(g(el, 'version'))
+                for sub in el:
+                    st = _tag(sub)
+                    if st == 'parent':
+                        et['parent'] = {k: sub.get(k) for k in ('event-type', 'property-map', 'parent-description', 'siblings-description')}
+                    elif st == 'properties':
+                        for p in sub:
+                            et['properties'].append({
+                                'name': g(p, 'name'), 'object-type': g(p, 'object-type'), 'description': g(p, 'description'),
+                                'optional': g(p, 'optional') == 'true', 'multivalued': g(p, 'multivalued') == 'true',
+                                'merge': g(p, 'merge', 'any'), 'similar': g(p, 'similar', ''), 'confidence': int(g(p, 'confidence')),
+                                'concepts': [{'name': g(c, 'name'), 'confidence': int(g(c, 'confidence')), 'cnp': int(g(c, 'cnp', '128')),
+                                              'attr-extension': g(c, 'attr-extension', ''),
+                                              'attr-display-name-singular': g(c, 'attr-display-name-singular'),
+                                              'attr-display-name-plural': g(c, 'attr-display-name-plural')} for c in p]})
+                    elif st == 'relations':
+                        for r in sub:
+                            typ = _tag(r)
+                            full = typ in ('inter', 'intra', 'other')
+                            et['relations'].append({
+                                'type': typ, 'source': g(r, 'source'), 'target': g(r, 'target'),
+                                'source-concept': g(r, 'source-concept'), 'target-concept': g(r, 'target-concept'),
+                                'description': g(r, 'description') if full else None, 'predicate': g(r, 'predicate') if full else None,
+                                'confidence': int(g(r, 'confidence')) if full and g(r, 'confidence') else None})
+                    elif st == 'attachments':
+                        for a in sub:
+                            et['attachments'].append({k: a.get(k) for k in ('name', 'media-type', 'display-name-singular', 'display-name-plural',
+                                                                            'description', 'encoding')})
+                o['event-types'].append(et)
+    return o
+
+
+def norm_rel(r):
+    """relations of the simple types carry no description / predicate / confidence"""
+    if r['type'] in ('inter', 'intra', 'other'):
+        return r
+    return dict(r, description=None, predicate=None, confidence=None)
+
+
+def onto_term(o):
+    o = copy.deepcopy(o)
+    for et in o['event-types']:
+        et['relations'] = [norm_rel(r) for r in et['relations']]
+    return C('Build_onto', [(x['name'], ot_node(x)) for x in o['object-types']], [(x['name'], concept_node(x)) for x in o['concepts']],
+             [(x['uri'], source_node(x)) for x in o['sources']], [(x['name'], et_node(x, o)) for x in o['event-types']])
